@@ -71,7 +71,11 @@ func HarnessC04Steps() {
 		if i == 0 {
 			// requirements: round 0 asks for a solver-chosen name, round 1 for
 			// another, then stable
-			st.reqNames = []string{zz.Str(nm + ".req0"), zz.Str(nm + ".req1")}
+			st.reqNames = []string{zz.Str(nm + ".req0"), zz.Str(nm + ".req1"), "extra-a"}
+			// the requirement's own name may change from round to round too
+			if zz.Bool(nm + ".keysChange") {
+				st.reqKeys = []string{"first", "second", "second"}
+			}
 		}
 		runner.steps = append(runner.steps, st)
 	}
